@@ -151,6 +151,7 @@ def while_with_invariant(it, node, fr, lc, k):
         if lc.body_ensures:
             extra = dict(extra)
             extra['iter'] = it.models_mod._deepcopy(it, V.SObj(object, dict(fr.locals), frozen=True))
+            extra['iter'].fields['__calls__'] = len(it.__dict__.get('call_log', ()))
         try:
             it.ex_block(node.body, fr)
         except I.BreakSig:
@@ -258,6 +259,7 @@ def for_with_invariant(it, node, fr, seq, lc, k):
         it.assign(node.target, x, fr)
         if lc.body_ensures:
             extra['iter'] = it.models_mod._deepcopy(it, V.SObj(object, dict(fr.locals), frozen=True))
+            extra['iter'].fields['__calls__'] = len(it.__dict__.get('call_log', ()))
         try:
             it.ex_block(node.body, fr)
         except I.BreakSig:
